@@ -112,7 +112,21 @@ def main(argv=None):
             undecided.append("%s: outside the modelled subset / shape mismatch: %s" % (u.label, ex))
             unit_infos.append({"unit": u.label, "undecided": str(ex)})
             continue
-        except Exception as ex:   # engine bug
+        except Exception as ex:
+            # A crash inside a contract's call model on a function whose source differs from the baseline means the
+            # model does not fit the changed code (e.g. another arity): undecided.  On unchanged source it is a bug
+            # of this machinery (exit 3).
+            sha_now = ""
+            try:
+                sha_now = (u.extracted.describe() if getattr(u, "extracted", None) else {}).get("sha256", "")
+            except Exception:
+                pass
+            b = baseline.get(u.label)
+            if b and sha_now and b.get("sha") != sha_now:
+                undecided.append("%s: the contract's model does not fit the changed source (%s: %s)"
+                                 % (u.label, type(ex).__name__, ex))
+                unit_infos.append({"unit": u.label, "undecided": "%s: %s" % (type(ex).__name__, ex)})
+                continue
             engine_errors.append("%s: %s" % (u.label, traceback.format_exc()[-1500:]))
             unit_infos.append({"unit": u.label, "engine_error": str(ex)})
             continue
@@ -176,19 +190,44 @@ def main(argv=None):
             retry_ix.append(r)
         else:
             still_unknown.append(r)
-    if retry_ix:
-        names = {r.name for r in retry_ix}
+    # the retry is expensive (4x budget, three seeds, two solvers): at most RETRY_PER_UNIT obligations of a unit are
+    # retried first; if one of them is confirmed as failed the unit is refuted and the rest are not retried (they stay
+    # `unknown`, listed in the evidence); if all of them discharge, the rest are retried too
+    RETRY_PER_UNIT = 6
+    pending = list(retry_ix)
+    not_retried = []
+    while pending:
+        per_unit, batch, later = {}, [], []
+        for r in pending:
+            label = _unit_of(r.name, unit_sha)
+            if per_unit.get(label, 0) < RETRY_PER_UNIT:
+                per_unit[label] = per_unit.get(label, 0) + 1
+                batch.append(r)
+            else:
+                later.append(r)
+        names = {r.name for r in batch}
         regroups = [(ax, [o for o in obs if o.name in names]) for ax, obs in groups]
         again = solve.discharge(regroups, timeout_ms=timeout_ms * 4, use_cvc5=True)
+        refuted_units = set()
         for r in again:
             if r.status == "unsat":
                 discharged.append(r)
             elif r.status == "sat":
                 failed.append(r)
+                refuted_units.add(_unit_of(r.name, unit_sha))
             else:
                 r.status = "unknown-after-retry"
                 regressed.append(r)
+                refuted_units.add(_unit_of(r.name, unit_sha))
         proper = [x for x in proper if x.name not in names] + again
+        pending = []
+        for r in later:
+            if _unit_of(r.name, unit_sha) in refuted_units:
+                not_retried.append(r)
+            else:
+                pending.append(r)
+    if not_retried:
+        notes.append("%d further obligations of already refuted units stayed unknown and were not retried" % len(not_retried))
     unknown = still_unknown
     failed = failed + regressed
 
